@@ -20,7 +20,8 @@ from . import lib
 from . import c01
 
 AREA = "Wallet"
-KF_IDS = {"C06-stale-frontier-after-rewind": "KF_STALE", "C06-retained-boundary-lost": "KF_RETAIN"}
+KF_IDS = {"C06-stale-frontier-after-rewind": "KF_STALE", "C06-retained-boundary-lost": "KF_RETAIN",
+          "C06-stale-subtree-root-after-reorg": "KF_STALEROOT"}
 
 
 def kf_env():
